@@ -72,6 +72,7 @@ func (f *Frame) callFn(st *State, r *Term, callee *ssa.Function, bindings []Val,
 		target = o
 	}
 	ct := f.ctx.eng.contractFor(target)
+	f.atCallChecks(st, r, target, bindings, args, pos)
 	if ct == nil || !ct.Traced {
 		return f.callFn0(st, r, callee, bindings, args, pos)
 	}
@@ -82,7 +83,111 @@ func (f *Frame) callFn(st *State, r *Term, callee *ssa.Function, bindings []Val,
 	f.ctx.assume(Implies(r, Ge(after, Add(before, IntLit(1)))))
 	f.ctx.assume(Implies(Not(r), Eq(after, before)))
 	st.heap[name] = after
+	// ghost trace of completed calls: returned!key(args..., results...) is a state-independent fact; the
+	// registers $lastarg/$lastres hold the arguments and results of the most recent completed call (nested
+	// calls complete before the call that made them, so after this call they are this call's)
+	var ts []*Term
+	okT := true
+	for _, a := range args {
+		t, isT := a.(*Term)
+		if !isT {
+			okT = false
+			break
+		}
+		ts = append(ts, t)
+	}
+	var rts []*Term
+	switch o := out.(type) {
+	case *Term:
+		rts = append(rts, o)
+	case TupleVal:
+		for _, x := range o {
+			t, isT := x.(*Term)
+			if !isT {
+				okT = false
+				break
+			}
+			rts = append(rts, t)
+		}
+	default:
+		okT = false
+	}
+	if okT {
+		f.ctx.assume(Implies(r, f.ctx.uf("returned!"+funcKey(target), SBool, append(append([]*Term{}, ts...), rts...)...)))
+		for i, t := range ts {
+			f.setRegister(st, r, fmt.Sprintf("$lastarg!%s!%d", funcKey(target), i), t)
+		}
+		for i, t := range rts {
+			f.setRegister(st, r, fmt.Sprintf("$lastres!%s!%d", funcKey(target), i), t)
+		}
+	}
 	return out
+}
+
+func (f *Frame) setRegister(st *State, r *Term, name string, v *Term) {
+	f.ctx.eng.compSeen[name] = v.S
+	if r.Op == "true" {
+		st.heap[name] = v
+		return
+	}
+	st.heap[name] = f.ctx.name("reg", Ite(r, v, f.ctx.comp(st, name, v.S)))
+}
+
+// atCallChecks: `at-call "key" label: expr` clauses of the function under verification, checked in the
+// state in which the callee is entered.
+func (f *Frame) atCallChecks(st *State, r *Term, target *ssa.Function, bindings []Val, args []Val, pos token.Pos) {
+	top := f.top()
+	if top.contract == nil || len(top.contract.AtCalls) == 0 {
+		return
+	}
+	key := funcKey(target)
+	for i, ac := range top.contract.AtCalls {
+		if ac.Key != key {
+			continue
+		}
+		se := f.specEnv(st, top.entry)
+		se.positive = false
+		se.wit, se.witParam = ac.Clause.Wit, ac.Clause.WitParam
+		se.presite = "pre"
+		sig := target.Signature
+		n := 0
+		if recv := sig.Recv(); recv != nil && len(args) > 0 {
+			se.vars["$arg0"] = SVal{args[0], f.subst(recv.Type())}
+			n = 1
+		}
+		for j := 0; j < sig.Params().Len() && n+j < len(args); j++ {
+			se.vars[fmt.Sprintf("$arg%d", n+j)] = SVal{args[n+j], f.subst(sig.Params().At(j).Type())}
+		}
+		if li := f.innermostLoop(f.curBlock); li != nil {
+			for _, in := range li.header.Instrs {
+				if ph, ok := in.(*ssa.Phi); ok && ph.Comment == "rangeindex" {
+					if v, ok := f.vals[ph]; ok {
+						se.vars["$i"] = SVal{v, types.Typ[types.Int]}
+					}
+				}
+			}
+		}
+		t := se.evalBool(ac.Clause.Expr)
+		label := ac.Clause.Label
+		if label == "" {
+			label = fmt.Sprint(i)
+		}
+		f.check("call", shortKey(key)+":"+label, r, t, pos)
+	}
+}
+
+// innermostLoop: the smallest natural loop whose body contains block b.
+func (f *Frame) innermostLoop(b *ssa.BasicBlock) *loopInfo {
+	var best *loopInfo
+	if b == nil {
+		return nil
+	}
+	for _, li := range f.loops {
+		if li.body[b] && (best == nil || len(li.body) < len(best.body)) {
+			best = li
+		}
+	}
+	return best
 }
 
 func (f *Frame) callFn0(st *State, r *Term, callee *ssa.Function, bindings []Val, args []Val, pos token.Pos) Val {
@@ -365,6 +470,7 @@ func (f *Frame) havocCall(st *State, r *Term, target *ssa.Function, sig *types.S
 		f.havocComps(st, comps)
 		f.assumeFrameSinceEntryNothing()
 	}
+	f.invalidateRegisters(st)
 	return f.freshResults(st, sig, "res")
 }
 
